@@ -239,15 +239,80 @@ def compare(ref, other, label):
 
 # ---------------------------------------------------------------- one run
 
-def _effectively_empty(stmts):
-    """Only pass/break/continue (or ifs/loops that are themselves effectively empty)."""
+def _empty_arm(stmts):
+    """Where an arm that does nothing leads: "fall", "break" or "continue";
+    None if the arm does something (has any real statement)."""
     for st in stmts:
-        if isinstance(st, (ast.Pass, ast.Break, ast.Continue)):
+        if isinstance(st, ast.Pass):
             continue
-        if isinstance(st, ast.If) and _effectively_empty(st.body) and _effectively_empty(st.orelse):
+        if isinstance(st, ast.Break):
+            return "break"
+        if isinstance(st, ast.Continue):
+            return "continue"
+        if isinstance(st, ast.If):
+            x, y = _empty_arm(st.body), _empty_arm(st.orelse)
+            if x is None or y is None or x != y:
+                return None
+            if x == "fall":
+                continue
+            return x
+        return None
+    return "fall"
+
+
+def _dest(stmts, cont, loop):
+    """Where control goes when it enters this statement list and nothing real
+    happens: the first real statement reached (by identity), or a jump marker.
+    cont = destination after the list; loop = (break_dest, continue_dest)."""
+    for i, st in enumerate(stmts):
+        if isinstance(st, ast.Pass):
             continue
-        return False
-    return True
+        if isinstance(st, ast.Break):
+            return loop[0] if loop else ("stmt", id(st))
+        if isinstance(st, ast.Continue):
+            return loop[1] if loop else ("stmt", id(st))
+        if isinstance(st, ast.If) and isinstance(st.test, ast.Constant) and False:
+            continue
+        return ("stmt", id(st))
+    return cont
+
+
+def _has_degenerate_if(fn):
+    found = []
+
+    def scan(stmts, cont, loop):
+        for i, st in enumerate(stmts):
+            after = _dest(stmts[i + 1:], cont, loop)
+            if isinstance(st, ast.If):
+                x = _dest(st.body, after, loop)
+                y = _dest(st.orelse, after, loop)
+                if x == y:
+                    found.append(st)
+                scan(st.body, after, loop)
+                scan(st.orelse, after, loop)
+            elif isinstance(st, (ast.While, ast.For)):
+                head = ("head", id(st))
+                # leaving normally runs the else clause, then what follows
+                after_else = _dest(st.orelse, after, loop)
+                scan(st.body, head, (after, head))
+                scan(st.orelse, after, loop)
+                if isinstance(st, ast.While):
+                    # the test block branches to the body and to the else clause
+                    if _dest(st.body, head, (after, head)) == after_else:
+                        found.append(st)
+    scan(fn.body, ("end",), None)
+    return bool(found)
+
+
+def _effectively_empty(stmts):
+    return _empty_arm(stmts) is not None
+
+
+def _degenerate_if(node):
+    """Both arms do nothing and lead to the same place: after pruning the test
+    block has two identical successors."""
+    x, y = _empty_arm(node.body), _empty_arm(node.orelse)
+    return x is not None and x == y
 
 
 def program_features(source):
@@ -273,12 +338,10 @@ def program_features(source):
             feats["while"] = True
             if node.orelse:
                 feats["loop_else"] = True
-            if _effectively_empty(node.body):
-                feats["degenerate_empty"] = True
+            pass
         elif isinstance(node, ast.If):
             feats["if"] = True
-            if _effectively_empty(node.body) and _effectively_empty(node.orelse):
-                feats["degenerate_empty"] = True
+            pass
         elif isinstance(node, ast.BoolOp):
             feats["boolop"] = True
             p = parent.get(node)
@@ -289,21 +352,40 @@ def program_features(source):
                 top = True
             if not top:
                 feats["boolop_nontoplevel"] = True
-    # a for-loop target that is read anywhere outside the body of its own loop
+    # an if whose two arms do nothing and lead to the same place
+    fn = tree.body[0]
+    if _has_degenerate_if(fn):
+        feats["degenerate_empty"] = True
+    # a while loop as the very first thing: the empty entry block is pruned and
+    # the loop head (which has a predecessor) becomes the entry
+    first = [st for st in fn.body if not isinstance(st, ast.Pass)][:1]
+    if first and isinstance(first[0], ast.While):
+        feats["degenerate_empty"] = True
+    # a for-loop target that is read anywhere outside the bodies of the loops
+    # that bind it
+    bodies = {}
     for node in ast.walk(tree):
         if isinstance(node, ast.For) and isinstance(node.target, ast.Name):
-            t = node.target.id
-            inside = set()
+            inside = bodies.setdefault(node.target.id, set())
             for st in node.body:
                 for sub in ast.walk(st):
                     inside.add(sub)
-            for sub in ast.walk(tree):
-                if isinstance(sub, ast.Name) and sub.id == t and isinstance(sub.ctx, ast.Load) \
-                        and sub not in inside:
+    for node in ast.walk(tree):
+        # the same target bound again by a loop nested in the first one: treated
+        # as escaping (the inner loop clobbers what the outer body then reads)
+        if isinstance(node, ast.For) and isinstance(node.target, ast.Name):
+            for sub in ast.walk(node):
+                if sub is not node and isinstance(sub, ast.For) and isinstance(sub.target, ast.Name) \
+                        and sub.target.id == node.target.id:
                     feats["for_target_escapes"] = True
-                if isinstance(sub, ast.AugAssign) and isinstance(sub.target, ast.Name) \
-                        and sub.target.id == t and sub not in inside:
-                    feats["for_target_escapes"] = True
+    for t, inside in bodies.items():
+        for sub in ast.walk(tree):
+            if isinstance(sub, ast.Name) and sub.id == t and isinstance(sub.ctx, ast.Load) \
+                    and sub not in inside:
+                feats["for_target_escapes"] = True
+            if isinstance(sub, ast.AugAssign) and isinstance(sub.target, ast.Name) \
+                    and sub.target.id == t and sub not in inside:
+                feats["for_target_escapes"] = True
     return feats
 
 
